@@ -68,16 +68,34 @@ def appended(p, name):
 
 
 def split_top(text, sep=","):
-    """split at top-level separators (outside brackets and string literals)"""
+    """split at top-level separators (outside brackets and string literals; the expressions of an f-string value text
+    `f'..{expr}..'` may themselves contain string literals)"""
     out, depth, cur, quote, prev = [], 0, [], None, ""
-    for ch in text:
-        if quote:
+    fmode, fbrace, fq = False, 0, None
+    for i, ch in enumerate(text):
+        if fmode:
+            cur.append(ch)
+            if fq:
+                if ch == fq and prev != "\\":
+                    fq = None
+            elif ch == "{":
+                fbrace += 1
+            elif ch == "}":
+                fbrace = max(0, fbrace - 1)
+            elif ch in "'\"":
+                if fbrace > 0:
+                    fq = ch
+                elif ch == quote:
+                    fmode, quote = False, None
+        elif quote:
             cur.append(ch)
             if ch == quote and prev != "\\":
                 quote = None
         elif ch in "'\"":
             quote = ch
             cur.append(ch)
+            if prev == "f" and (i < 2 or not (text[i - 2].isalnum() or text[i - 2] == "_")):
+                fmode, fbrace, fq = True, 0, None
         elif ch in "([{":
             depth += 1
             cur.append(ch)
@@ -153,3 +171,79 @@ def class_hooks(cls, unroll=2, base=None):
 
     _CH.unroll = unroll
     return _CH()
+
+
+def _strip_parens(t):
+    t = t.strip()
+    while t.startswith("(") and t.endswith(")"):
+        depth = 0
+        ok = True
+        for i, ch in enumerate(t):
+            if ch == "(":
+                depth += 1
+            elif ch == ")":
+                depth -= 1
+                if depth == 0 and i != len(t) - 1:
+                    ok = False
+                    break
+        if not ok:
+            break
+        t = t[1:-1].strip()
+    return t
+
+
+def _top_binop(t, ops):
+    """(left, op, right) at the LAST top-level ` Op ` (left-associative) of a value text, or None"""
+    depth, quote, prev = 0, None, ""
+    hits = []
+    i = 0
+    while i < len(t):
+        ch = t[i]
+        if quote:
+            if ch == quote and prev != "\\":
+                quote = None
+        elif ch in "'\"":
+            quote = ch
+        elif ch in "([{":
+            depth += 1
+        elif ch in ")]}":
+            depth -= 1
+        elif ch == " " and depth == 0:
+            for op in ops:
+                if t.startswith(f" {op} ", i):
+                    hits.append((i, op))
+        prev = ch
+        i += 1
+    if not hits:
+        return None
+    i, op = hits[-1]
+    return t[:i], op, t[i + len(op) + 2 :]
+
+
+def product_form(text):
+    """normal form of a product/quotient value text: (sorted numerator factors, sorted denominator factors), with
+    `float(x)` transparent and numeric literals normalised (100.0 == 100); commutativity and associativity of `*`
+    and the placement of `/` do not matter: `a / b * 100`, `100 * a / b`, `100.0 * (a / b)` have one normal form"""
+    num, den = [], []
+
+    def walk(t, into, other):
+        t = _strip_parens(t)
+        while re.fullmatch(r"float\((.*)\)", t) and _strip_parens(t[5:]) != t[5:]:
+            t = _strip_parens(t[5:])
+        hit = _top_binop(t, ("Mult", "Div"))
+        if hit is None:
+            try:
+                t = repr(float(t)) if re.fullmatch(r"-?\d+(\.\d*)?", t) else t
+            except ValueError:
+                pass
+            into.append(t)
+            return
+        l, op, r = hit
+        walk(l, into, other)
+        if op == "Mult":
+            walk(r, into, other)
+        else:
+            walk(r, other, into)
+
+    walk(vt(text), num, den)
+    return sorted(num), sorted(den)
